@@ -25,11 +25,11 @@ func TestC29_NodePaging(t *testing.T) {
 	r.Rule("node paging: address filters (1-4 addresses of the node's chain, with duplicates and unknown addresses) x confirmed filter {none, confirmed, unconfirmed} x order {asc, desc} x page size 1..100 (biased to 1..5, the result lists hold up to ~14 transactions) on a real node; oracle: the concatenation of pages 1..N equals the unpaged, de-duplicated list, every page reports N = ceil(len/size) pages, pages N+1, N+2 and drawn 64-bit page numbers (2^63, 2^64-1, values whose (page-1)*size wraps to a small number) are empty, and the HTTP endpoint returns the same pages and page count; non-trivial = the result list spans at least 2 pages; distinct by (filter, order, size)")
 	tm, err := getTemplate()
 	if err != nil {
-		t.Skipf("HARNESS-SETUP-FAILED node template: %v", err)
+		setupFailed(t, "node template: %v", err)
 	}
 	n, err := startNode(tm)
 	if err != nil {
-		t.Skipf("HARNESS-SETUP-FAILED node start: %v", err)
+		setupFailed(t, "node start: %v", err)
 	}
 	defer n.stop()
 	hx.Check(t, "C29", 300, 20000, func(t *rapid.T) {
